@@ -25,6 +25,7 @@ MANIFEST = dict(
           "__hash__ is shown to take its digit count from the live get_sig_figures() (taint tracking on the straight-line hash code of all eight hashable types)."),
     note=("A3: log10/round are executed natively on the finite configuration set, not modelled. The 'hash equal / contain each other / intersect as coincident' clause for eps/1000-perturbed objects of the composite types is a "
           "labelled bounded stand-in over catalogue objects whose hashed quantities are away from rounding boundaries (not counted as proved)."),
+    technique='contract-based deductive verification: finite configuration space enumerated completely, tolerance predicates with symbolic eps, hash digits by taint tracking, poisoned import-time copies (z3) + labelled bounded configuration histories on perturbed catalogue objects',
     design_ref="DESIGN.md section 9 (C19), section 4",
 )
 EXPLANATION = "finite configuration space enumerated completely; tolerance predicates proved with symbolic eps; hash digit counts by taint tracking"
